@@ -335,6 +335,8 @@ class FnSplicer:
             self._bool_or_assign(body_open, body_close)
         if 'let-chain-first' in (spec.get('rewrites') or []):
             self._let_chain_first(body_open, body_close)
+        if 'let-chain-nest' in (spec.get('rewrites') or []):
+            self._let_chain_nest(body_open, body_close)
         if 'mut-self-to-local' in (spec.get('rewrites') or []):
             self._mut_self_to_local(kwi, pclose, body_open, body_close)
         # an annotation set can name statements it relies on; if one is missing the set does not apply (lost anchor)
@@ -958,6 +960,45 @@ class FnSplicer:
             i += 1
         if n == 0:
             raise ExtractError('lost anchor: no `if let P = E && A {` in %s' % self.name_path)
+
+    def _let_chain_nest(self, body_open, body_close):
+        """Rule 'let-chain-nest': `if C1 && C2 && ... && Cn { B }` in which some Ci is a `let P = E`, and the `if` has no
+        `else`, -> `if C1 { if C2 { ... if Cn { B } ... } }`.  Same evaluation order, same short-circuiting, same scopes
+        (a binding of Ci is visible in the later conjuncts and in B).  Only `&&` at depth 0 of the condition separate
+        conjuncts."""
+        toks = self.src.toks
+        i = body_open + 1
+        n = 0
+        while i < body_close:
+            if toks[i].kind == 'ident' and toks[i].text == 'if' and not (toks[i - 1].kind == 'ident' and toks[i - 1].text == 'else'):
+                k = i + 1
+                amps = []
+                has_let = False
+                ok = True
+                while k < body_close and not (toks[k].kind == 'punct' and toks[k].text == '{'):
+                    if toks[k].text in ('(', '['):
+                        k = match_close(toks, k)
+                    elif toks[k].text == '&' and toks[k + 1].text == '&' and toks[k + 1].start == toks[k].end:
+                        amps.append(k)
+                        k += 1
+                    elif toks[k].kind == 'ident' and toks[k].text == 'let':
+                        has_let = True
+                    elif toks[k].text == '|' and toks[k + 1].text == '|' and toks[k + 1].start == toks[k].end:
+                        ok = False
+                    k += 1
+                if has_let and amps and ok and k < body_close:
+                    bclose = match_close(toks, k)
+                    if toks[bclose + 1].kind == 'ident' and toks[bclose + 1].text == 'else':
+                        raise ExtractError('let-chain-nest: the if has an else branch')
+                    for a in amps:
+                        self.segs.rewrite(toks[a].start, toks[a + 1].end, '{ if', 'let-chain-nest')
+                    self.segs.insert(toks[bclose].end, ' }' * len(amps), 'let-chain-nest/close')
+                    self.counts['let-chain-nest'] = self.counts.get('let-chain-nest', 0) + 1
+                    n += 1
+                    i = k
+            i += 1
+        if n == 0:
+            raise ExtractError('lost anchor: no `if ... && let P = E ... {` in %s' % self.name_path)
 
     def _let_chain_last(self, body_open, body_close):
         """Rule 'let-chain-last': `if A && let P = E { B }` (the `let` is the LAST conjunct and the
